@@ -703,6 +703,50 @@ def probe_known(ctx):
                  "a rechunk of the category axis pushed through an elementwise op onto a multinomial array raises under optimisation (computes with from_array of the same values and with array.optimize-graph=False)")
 
 
+def probe_same_seed_layouts(ctx):
+    """two equally seeded generators drawing the same distribution / size with DIFFERENT chunkings (equal and unequal block
+    counts), both arrays alive: each must have its own chunks and block shapes and both must be reproducible — whatever
+    names a random array must tell the two layouts apart (forced in every run: not left to the random draws)"""
+    import dask_array as da
+
+    layouts = [((4, 6), (2, 6), (4, 3)), ((10,), (5,), ((4, 6),)), ((6, 4), (3, 2), (2, 4)), ((8,), (4,), (2,))]
+    for kind in ("default_rng", "RandomState"):
+        for dist in ("normal", "random", "integers"):
+            for shape, ca, cb in layouts:
+                def draw(chunks, kind=kind, dist=dist, shape=shape):
+                    g = da.random.default_rng(2024) if kind == "default_rng" else da.random.RandomState(2024)
+                    if dist == "normal":
+                        return g.normal(size=shape, chunks=chunks)
+                    if dist == "random":
+                        return g.random(size=shape, chunks=chunks) if kind == "default_rng" else g.random_sample(size=shape, chunks=chunks)
+                    return g.integers(0, 100, size=shape, chunks=chunks) if kind == "default_rng" else g.randint(0, 100, size=shape, chunks=chunks)
+
+                case = {"probe": "same-seed-layouts", "kind": kind, "dist": dist, "shape": list(shape), "chunks_a": repr(ca), "chunks_b": repr(cb)}
+                try:
+                    a = draw(ca)
+                    b = draw(cb)
+                    from dask_array._core_utils import normalize_chunks
+
+                    want_b = normalize_chunks(cb, shape)
+                    ctx.count(("probe", "same-seed-layouts", kind, dist))
+                    if tuple(b.chunks) != tuple(want_b):
+                        ctx.fail("random:same-seed-other-layout:chunks", dict(case, got=repr(b.chunks), want=repr(want_b)),
+                                 "a random array built while an equally seeded one with another chunking is alive has that one's chunks")
+                        continue
+                    vb = b.compute(**SYNC)
+                    va = a.compute(**SYNC)
+                    if vb.shape != tuple(shape) or va.shape != tuple(shape):
+                        ctx.fail("random:same-seed-other-layout:shape", dict(case, got=[list(va.shape), list(vb.shape)]), "wrong computed shape")
+                        continue
+                    del a
+                    b2 = draw(cb)
+                    if not same(b2.compute(**SYNC), vb, False):
+                        ctx.fail("random:same-seed-other-layout:values", case,
+                                 "the same seeded draw gives other values depending on whether an equally seeded array with another chunking is alive")
+                except Exception as e:  # noqa: BLE001
+                    ctx.fail("random:same-seed-other-layout:raises", dict(case, error=repr(e)[:200]), "drawing two equally seeded arrays with different chunkings raises")
+
+
 def probe_generic_array_param(ctx):
     """(F) listed class: every distribution except normal / poisson keeps an array-valued parameter as a whole COLLECTION
     inside the generic Random node's args / kwargs operands; with more than one output block every task hands the whole
@@ -1038,6 +1082,10 @@ def run(ctx, replay=None):
         with_timeout(30, lambda: probe_generic_array_param(ctx))
     except Hang:
         ctx.fail("random:hang", {"where": "probe_generic_array_param"}, "the known-class probe does not finish within 30 s")
+    try:
+        with_timeout(30, lambda: probe_same_seed_layouts(ctx))
+    except Hang:
+        ctx.fail("random:hang", {"where": "probe_same_seed_layouts"}, "the same-seed layout probe does not finish within 30 s")
     # programs with SHARED intermediates (fusion groups that receive a substituted external operand) and accesses BETWEEN draws
     try:
         with_timeout(ctx.scale(90, 600), lambda: SH.search(ctx, GEN_KINDS))
